@@ -635,6 +635,25 @@ def encoder_images(ctx):
                 f["gab"] = True
                 f["epf"] = rng.choice([0, 1, 2])
         plans.append(("patches", pl.plan_line(img, frames)))
+    # the same features on an upsampled frame (patches and splines are applied after the upsampling, noise before)
+    for i in range(6 if ctx.quick else 80):
+        img, frames, _tags = c05.gen_patch_image(rng)
+        top = frames[-1]
+        if top.get("have_crop") or img["ecs"] or img["gray"]:
+            continue
+        ups = rng.choice([2, 2, 4])
+        w, h = img["w"], img["h"]
+        cw, ch = -(-w // ups), -(-h // ups)
+        top["ups"] = ups
+        top["chans"] = [(cw, ch, pl.gen_pixels(rng, cw, ch, 0, (1 << img["bits"]) - 1)) for _ in top["chans"]]
+        lut, sp = pl.gen_features(rng, w, h, noise=rng.random() < 0.5, splines=rng.random() < 0.5)
+        if lut:
+            top["noise"] = lut
+        if sp:
+            top["splines"] = sp
+        if rng.random() < 0.5:
+            top["patches"] = None
+        plans.append(("features-on-upsampled-frame", pl.plan_line(img, frames)))
     # upsampled frames (2x / 4x / 8x, colour and extra channels), alone or blended over a plain base frame,
     # with and without restoration filters: the upsampling kernel reads a 5x5 neighbourhood of coded samples
     for i in range(8 if ctx.quick else 100):
